@@ -1685,6 +1685,12 @@ class OR(LogicalBinaryOperator, ABC):
             projection.update(self._parent_._projection_(when_true))
         return projection
 
+    def _reset_evaluation_state_(self):
+        # an evaluation that was abandoned in the middle of a pass leaves the marker of that pass set
+        super()._reset_evaluation_state_()
+        self.left_evaluated = False
+        self.right_evaluated = False
+
     def evaluate_left(
         self,
         sources: Dict[int, HashedValue],
